@@ -15,7 +15,8 @@ def _units_body(tier, seed):
     from checks import foundation
     from checks import tables as _tables
     _table_units = _tables.units(_tables.OPP)
-    return list(us) + foundation.units(tier, seed) + _table_units
+    from checks import openvpnkey
+    return list(us) + openvpnkey.units() + foundation.units(tier, seed) + _table_units
 
 
 
